@@ -231,11 +231,11 @@ def thorough_entries():
             node = _Cont(f, _Leaf(lf), "c")
             sp, sparams, spre = node.spec()
             ve, vparams, vpre = node.value("")
-            out.append(ent("gen2.%s.%s" % (f, lf), ", ".join(sparams + vparams), sp, ve, pre=spre + vpre, timeout=120, tier="thorough"))
+            out.append(ent("gen2.%s.%s" % (f, lf), ", ".join(sparams + vparams), sp, ve, pre=spre + vpre, timeout=120, tier="thorough", covers=("accept",)))
     for f1 in forms:
         for f2 in forms:
             node = _Cont(f1, _Cont(f2, _Leaf("int"), "d"), "c")
             sp, sparams, spre = node.spec()
             ve, vparams, vpre = node.value("")
-            out.append(ent("gen3.%s.%s.int" % (f1, f2), ", ".join(sparams + vparams), sp, ve, pre=spre + vpre, timeout=200, tier="thorough"))
+            out.append(ent("gen3.%s.%s.int" % (f1, f2), ", ".join(sparams + vparams), sp, ve, pre=spre + vpre, timeout=200, tier="thorough", covers=("accept",)))
     return out
